@@ -389,8 +389,8 @@ func (p *Prog) needsSplit(f *Func, cond ast.Expr) bool {
 		}
 		switch fo := typeutil.Callee(info, c).(type) {
 		case *types.Func:
-			if g := p.FuncByObj[fo]; g != nil && g.Body != nil && g.isHandWritten() && g.pkgName() != "types" {
-				found = true
+			if g := p.FuncByObj[fo]; g != nil && g.Body != nil && g.isHandWritten() && g.pkgName() != "types" && p.predDef(g) == nil {
+				found = true // (a pure predicate has no effects to order: it stays part of the compound condition)
 			}
 			if sig, ok := fo.Type().(*types.Signature); ok && sig.Recv() != nil {
 				if _, isIface := sig.Recv().Type().Underlying().(*types.Interface); isIface {
@@ -1260,7 +1260,13 @@ func classifyErr(t *Term, facts FactSet) ExitKind {
 	return ExitRevert
 }
 
+// errCtorHook is installed by the loader: module helpers that build an error (every path returns a non-nil error).
+var errCtorHook func(op string) bool
+
 func isErrCtor(op string) bool {
+	if errCtorHook != nil && errCtorHook(op) {
+		return true
+	}
 	switch op {
 	case "github.com/cosmos/cosmos-sdk/types/errors.Wrap", "github.com/cosmos/cosmos-sdk/types/errors.Wrapf",
 		"errors.New", "fmt.Errorf", "google.golang.org/grpc/status.Errorf", "google.golang.org/grpc/status.Error":
